@@ -143,8 +143,8 @@ def reconvert_cases(draw, tier):
     nl = draw(gen.netlists(min_inputs=2, max_inputs=5, max_gates=14 if big else 10, types=draw(st.sampled_from([HEAVY, list(gen.ALL_TYPES)])),
                            max_arity=3, styles=('plain', 'mixed'), max_outputs=3, const_operands=(0, 0, 2)))
     muts = []
-    for _ in range(draw(st.integers(1, 3))):
-        kind = draw(st.sampled_from(['replace_inputs', 'replace_inputs', 'add_gates', 'add_circuit', 'rename', 'nothing']))
+    for _ in range(draw(st.integers(1, 4))):
+        kind = draw(st.sampled_from(['replace_inputs', 'replace_inputs', 'add_gates', 'add_gates', 'add_circuit', 'rename', 'rename', 'wrap', 'nothing']))
         m = {'kind': kind}
         if kind == 'replace_inputs':
             m['true'] = draw(st.lists(st.integers(0, 8), max_size=2))
@@ -153,10 +153,13 @@ def reconvert_cases(draw, tier):
             m['gates'] = [[draw(st.sampled_from(sorted(REWRITTEN))), draw(st.integers(0, 40)), draw(st.integers(0, 40)),
                            draw(st.booleans())] for _ in range(draw(st.integers(1, 3)))]
             m['emplace'] = draw(st.booleans())
+            # give a new gate the label (and kind) of a gate that was renamed away earlier
+            m['reuse'] = draw(st.booleans())
         elif kind == 'add_circuit':
             m['other'] = draw(gen.netlists(min_inputs=1, max_inputs=2, max_gates=4, types=HEAVY, max_arity=2, styles=('plain',), max_outputs=2))
-        elif kind == 'rename':
+        elif kind in ('rename', 'wrap'):
             m['x'] = draw(st.integers(0, 40))
+            m['y'] = draw(st.integers(0, 40))
         muts.append(m)
     return {'nl': nl, 'route': draw(gen.routes(nl)), 'muts': muts, 'uuid_seed': draw(st.integers(0, 2 ** 20)),
             'first': draw(st.sampled_from([True, True, True, False]))}
@@ -173,6 +176,8 @@ def check_reconvert(case):
             verify(c, ret, nl, {})
             cls.add('converted_before')
         fresh = 0
+        retired = []
+        typ0 = {g[0]: g[1] for g in nl['gates']}
         for k, m in enumerate(case['muts']):
             cur = refsem.from_circuit(c)
             labs = [g[0] for g in cur['gates']]
@@ -190,6 +195,12 @@ def check_reconvert(case):
                     ops = () if t.startswith('ALWAYS') else (labs[a % len(labs)], labs[b % len(labs)])
                     lab = f'fresh{k}_{fresh}'
                     fresh += 1
+                    if m.get('reuse') and retired:
+                        lab = retired.pop()
+                        if typ0.get(lab) in HELPER:
+                            t = typ0[lab]
+                            ops = () if t.startswith('ALWAYS') else ops or (labs[a % len(labs)], labs[b % len(labs)])
+                        cls.add('label_reused')
                     if m['emplace']:
                         c.emplace_gate(lab, getattr(core.gate, t), ops)
                     else:
@@ -205,7 +216,19 @@ def check_reconvert(case):
             elif m['kind'] == 'rename':
                 old = labs[m['x'] % len(labs)]
                 c.rename_gate(old, f'renamed{k}')
+                if old in typ0 and typ0[old] != 'INPUT':
+                    retired.append(old)
                 cls.add('rename')
+            elif m['kind'] == 'wrap':
+                # wrap a gate under its old name: g -> renamed, new g = <original type of g>(renamed, other)
+                cand = [l for l in labs if typ0.get(l) in HELPER and l in typ0]
+                if cand:
+                    old = cand[m['x'] % len(cand)]
+                    t = typ0[old]
+                    c.rename_gate(old, f'wrapped{k}')
+                    ops = () if t.startswith('ALWAYS') else (f'wrapped{k}', labs[m['y'] % len(labs)] if labs[m['y'] % len(labs)] != old else f'wrapped{k}')
+                    c.add_gate(core.gate.Gate(old, getattr(core.gate, t), ops))
+                    cls.add('label_reused')
             # a conversion in the middle of the history as well
             if k + 1 < len(case['muts']) and case['muts'][k + 1]['kind'] == 'nothing':
                 mid = refsem.from_circuit(c)
@@ -233,7 +256,8 @@ SPEC = {
              'tables unchanged, only {INPUT,NOT,AND,OR,NAND,NOR,XOR,NXOR,IFF} remain, wellformed() (users multiset etc.), '
              'every new label is a NOT used by exactly one rewritten gate and is in exactly the blocks containing that '
              'gate, zero-input circuits with a constant raise. Sub-check reconvert: circuits with a history - converted once, then '
-             'changed by replace_inputs / add_gate / emplace_gate of non-bench types / add_circuit / rename_gate, then converted '
+             'changed by replace_inputs / add_gate / emplace_gate of non-bench types (also under the label of a gate renamed away '
+             'earlier) / add_circuit / rename_gate, then converted '
              'again (same post-conditions against the netlist read back just before the call). Non-trivial: >=2 gates were '
              'rewritten (reconvert: a non-bench gate was re-introduced after an earlier conversion).'),
     'assumptions': ['reference tables from vlib/refsem.py; uuid4 replaced by a seeded stream'],
@@ -241,6 +265,6 @@ SPEC = {
              Sub('reconvert', reconvert_cases, check_reconvert, {'quick': 1200, 'thorough': 60000})],
     'required_classes': {'bench': ['blocks', 'binary_identical_operands', 'rewritten_output', 'rewritten_in_block',
                                    'constant', 'LR_gate', 'cmp_gate', 'zero_inputs_constant_rejected'],
-                         'reconvert': ['converted_before', 'replace_inputs', 'add_gates', 'add_circuit', 'rename',
+                         'reconvert': ['converted_before', 'replace_inputs', 'add_gates', 'add_circuit', 'rename', 'label_reused',
                                        'non_bench_gates_reintroduced']},
 }
